@@ -16,7 +16,8 @@ EXPLANATION = (
     '(PAR/FWD-list) the three dof cases of every list arm pass the loop element and differ only in dof; (FWD) prec_from_* '
     'forward all their arguments to cov_from_* and invert every element; (EXH) _estimate_covariance dispatches every '
     'documented method; (CLAMP) shrinkage intensities are clamped to [0, 1] before they scale the estimate; (PURE) inputs '
-    'are not modified (E3). PSD-ness, symmetry, the numeric inverse and agreement of estimators are NOT decided.')
+    'are not modified (E3). PSD-ness, symmetry, the numeric inverse and agreement of estimators are NOT decided.'
+    ' Round 6: (DOF-EXIT) every return of the covariance helpers derives from the dof handed in.')
 ASSUMPTIONS = ['tensor layout (condition, channel, repetition) as returned by Dataset.get_measurements_tensor',
                'the channel axis is axis 1 in every layout handled by _check_demean']
 FLOOR = 40
